@@ -95,6 +95,9 @@ pub fn gen_history(pid: &str, rng: &mut Rng, uni: &Universe, persistent: bool, s
                 81..=88 => h.push(SOp::ListNamespaces),
                 89..=93 if persistent => h.push(SOp::Reopen),
                 94..=96 => h.push(SOp::Remove { ns }),
+                // an unrelated store call that is refused (the document does not exist): whatever it does to
+                // the store's open transaction, capabilities imported before must stay
+                97 => { stats.inc("refused_call"); h.push(SOp::SetPolicy { ns: [0xEE; 32], policy: Default::default() }); }
                 _ => h.push(SOp::GetAll { ns }),
             },
             "C13" => match roll {
@@ -130,7 +133,9 @@ pub fn gen_history(pid: &str, rng: &mut Rng, uni: &Universe, persistent: bool, s
                 }
                 80..=85 => h.push(SOp::Remove { ns }),
                 86..=91 => h.push(SOp::Import { ns, secret: uni.secret_of(&ns) }),
-                92..=95 if persistent => h.push(SOp::Reopen),
+                92..=93 if persistent => h.push(SOp::Reopen),
+                // the file as an older version left it: no head table; opening it rebuilds the heads
+                94..=95 if persistent => { stats.inc("heads_rebuilt"); h.push(SOp::WipeReopen { latest: true, bykey: rng.chance(1, 3) }); }
                 _ => h.push(SOp::Close { ns }),
             },
             "C15" => match roll {
@@ -277,7 +282,10 @@ pub fn run(pid: &str, seed: u64, n: usize, out: &Path, _thorough: bool) -> anyho
     let code: u64 = pid[1..].parse()?;
     let mut rng = Rng::new(seed ^ (0x5700 + code));
     let mut stats = Stats::default();
-    let mut cw = CaseWriter::new(out, pid, "Check.StoreProps", 50)?;
+    // C15 is also observed at the download flag of remote insert events: its case file mixes store
+    // histories with histories through the store handle (Check/C15.v)
+    let mixed = pid == "C15";
+    let mut cw = CaseWriter::new(out, pid, if mixed { "Check.C15" } else { "Check.StoreProps" }, 50)?;
     let mut distinct = std::collections::HashSet::new();
     for i in 0..n {
         let uni = Universe::new(seed.wrapping_add((i % 4) as u64), 2 + (i % 2), 1 + rng.below(3) as usize);
@@ -292,7 +300,16 @@ pub fn run(pid: &str, seed: u64, n: usize, out: &Path, _thorough: bool) -> anyho
         };
         let mut m = Machine::new(persistent, uni.authors.clone())?;
         let mut hist = Vec::new();
+        // C17: the registration clock is the wall clock (there is no hook on that path, on purpose: the
+        // way the timestamp is computed is part of what is checked); in a few histories the process
+        // pauses before some registrations, so that consecutive registrations straddle second boundaries
+        let mut pauses = if pid == "C17" && i % 67 == 3 { 4 } else { 0 };
         for op in ops {
+            if pauses > 0 && matches!(op, SOp::RegisterPeer { .. }) {
+                std::thread::sleep(std::time::Duration::from_millis(300));
+                pauses -= 1;
+                stats.inc("registrations_after_a_pause");
+            }
             // a raw put needs some existing document as a carrier
             if matches!(op, SOp::RawPut { .. }) && m.ts.s().list_namespaces()?.next().is_none() {
                 continue;
@@ -308,6 +325,7 @@ pub fn run(pid: &str, seed: u64, n: usize, out: &Path, _thorough: bool) -> anyho
         } else {
             format!("(mkCase {} {} {})", code, clist(&uni.all_ids(), |i| n256(i)), ch)
         };
+        let coq = if mixed { format!("(St15 (StoreProps.{})", &coq[1..]) } else { coq };
         let json = format!("{{\"store\":\"{}\",\"history\":{}}}", if persistent { "file" } else { "memory" }, jh);
         let interesting = hist.iter().any(|(o, r)| match (pid, o, r) {
             ("C07", SOp::Import { .. }, SRes::Import("ImpUpgraded")) => true,
@@ -322,6 +340,13 @@ pub fn run(pid: &str, seed: u64, n: usize, out: &Path, _thorough: bool) -> anyho
             stats.inc("distinct_nontrivial");
         }
         cw.push(coq, json)?;
+    }
+    if mixed {
+        // a quarter as many histories through the store handle, generated as for C12 (policies change
+        // while documents stay open, entries arrive right afterwards by either path)
+        let before = cw.total;
+        crate::actorops::run_into("C15", seed ^ 0x15, (n / 4).max(20), &mut cw, &mut stats, Some("Ev15"))?;
+        stats.add("event_histories", (cw.total - before) as u64);
     }
     cw.flush()?;
     stats.add("evaluations", cw.total as u64);
